@@ -7,6 +7,7 @@ pub mod refcal;
 pub mod refinst;
 pub mod reftz;
 pub mod rng;
+pub mod zones;
 
 #[global_allocator]
 static GLOBAL: allocmon::CountingAlloc = allocmon::CountingAlloc;
